@@ -81,3 +81,417 @@ def generated_files():
 
 if __name__ == "__main__":
     print(translate()[0] or translate()[1])
+
+
+# =====================================================================================================================
+# Round 2: the ENTRY POINTS of the composition machinery, translated from source (Generated/C03Entry.lean) and proved
+# equal to composeCell / inplaceCell / fromVectorCell / chainAdd / rawCompose / nonAlignmentMatrix / decomposeLeaves /
+# scaleFactory by GenProps/C03Entry.lean.  The vocabulary is Core/C03Entry.lean.
+# =====================================================================================================================
+import ast
+
+ENTRY_REL = os.path.join("MenpoModel", "Generated", "C03Entry.lean")
+ENTRY_TARGETS = ["MenpoModel.Generated.C03Entry", "MenpoModel.GenProps.C03Entry"]
+ENTRY_OBLIGATIONS = 17
+
+
+class ERules(py2lean.Rules):
+    """py2lean.Rules plus: stmt rules may carry a 4th element "bind" (the new value of the receiver is computed in
+    the monad) and a 5th element {metavariable: required lean text} (the rule only applies to that call shape);
+    `end`: what a function that falls off its end returns ({name} = current lean name of a python variable);
+    `raises`: exception class name -> lean term; `item`: template of one element of a list display;
+    `tuples`: [(python pattern, [lean names])] for `a, b, c = <call>` whose results are parameters of the model."""
+
+    def __init__(self, expr=(), stmt=(), end=None, raises=None, item=None, tuples=(), **kw):
+        self.stmt_flag = [(s[3] if len(s) > 3 else "") for s in stmt]
+        self.stmt_guard = [(s[4] if len(s) > 4 else {}) for s in stmt]
+        py2lean.Rules.__init__(self, expr=expr, stmt=[s[:3] for s in stmt], **kw)
+        self.end = end
+        self.raises = dict(raises or {})
+        self.item = item
+        self.tuples = [(py2lean._pat(p, "expr"), names) for p, names in tuples]
+
+
+def _fold(text):
+    """truth value of a translated condition that is a literal, else None"""
+    t = text.strip()
+    for _ in range(8):
+        if t.startswith("(") and t.endswith(")") and t[1:-1] in ("true", "false", "!true", "!false"):
+            t = t[1:-1]
+        if t == "!true":
+            t = "false"
+        if t == "!false":
+            t = "true"
+    return True if t == "true" else False if t == "false" else None
+
+
+class EntryTranslator(py2lean.Translator):
+    """py2lean.Translator plus the statement / expression forms the entry points need (to be merged into py2lean):
+      * a function may fall off its end (in-place methods): `rules.end`;
+      * `import` / `from .. import` inside a function body: dropped;
+      * `if` whose translated test is a literal (a keyword argument the call site fixes, `x is None` for an argument
+        bound to `none`): only the live branch is translated (specialisation to the call shape);
+      * in-place method calls whose new receiver value is monadic (stmt rule flag "bind"), guards on the call shape;
+      * a monadic call used as an operand (`a.f(b.g(v))`): hoisted into a bind in front of the statement;
+      * `raise Exc(...)` mapped by exception class; list displays; `x is None`; `a, b, c = <external routine>`."""
+
+    def __init__(self, rules):
+        py2lean.Translator.__init__(self, rules)
+        self._pending = []
+        self._tmp = 0
+
+    def function(self, fn, arg_names, ind=2):
+        """as py2lean.Translator.function, but a `**kwargs` parameter the body never mentions is accepted"""
+        node, src = py2lean.source_ast(fn)
+        params = [a.arg for a in node.args.args]
+        missing = [p for p in params if p not in arg_names]
+        kw = node.args.kwarg.arg if node.args.kwarg else None
+        used = {n.id for n in ast.walk(node) if isinstance(n, ast.Name)}
+        if missing or node.args.vararg or node.args.kwonlyargs or (kw is not None and kw in used):
+            raise py2lean.Untranslatable("signature of %s changed: %s" % (node.name, ast.unparse(node.args)))
+        return self.block(list(node.body), dict(arg_names), ind)
+
+    # -------------------------------------------------------------- expressions
+    def expr(self, node, scope):
+        if (isinstance(node, ast.Call) and isinstance(node.func, ast.Name) and node.func.id == "reduce"
+                and len(node.args) == 3 and not node.keywords and isinstance(node.args[0], ast.Lambda)
+                and len(node.args[0].args.args) == 2 and not node.args[0].args.defaults):
+            lam = node.args[0]
+            acc, item = (a.arg for a in lam.args.args)
+            sc = dict(scope)
+            sc[acc], sc[item] = self.fresh(acc, sc), None
+            sc[item] = self.fresh(item, sc)
+            body, flag = py2lean.Translator.expr(self, lam.body, sc)
+            return "pyReduce (fun %s %s => %s) %s %s" % (sc[acc], sc[item], body, self.pure(node.args[1], scope),
+                                                         self.pure(node.args[2], scope)), "bind"
+        if isinstance(node, ast.List) and self.r.item is not None:
+            return "[" + ", ".join(self.r.item.format(x=self.pure(e, scope)) for e in node.elts) + "]", ""
+        if (isinstance(node, ast.Compare) and len(node.ops) == 1 and isinstance(node.ops[0], (ast.Is, ast.IsNot))
+                and isinstance(node.comparators[0], ast.Constant) and node.comparators[0].value is None):
+            x = self.pure(node.left, scope)
+            neg = isinstance(node.ops[0], ast.IsNot)
+            if x == "none":
+                return ("false" if neg else "true"), ""
+            if x.startswith("(some "):
+                return ("true" if neg else "false"), ""
+            return "(%s%s.isNone)" % ("!" if neg else "", x), ""
+        return py2lean.Translator.expr(self, node, scope)
+
+    def pure(self, node, scope):
+        e, flag = self.expr(node, scope)
+        if flag == "bind":
+            if not self._pending:
+                raise py2lean.Untranslatable("monadic operand outside a statement: `%s`" % ast.unparse(node))
+            tmp = "tmp%d" % self._tmp
+            self._tmp += 1
+            self._pending[-1].append((e, tmp))
+            return tmp
+        return e
+
+    # -------------------------------------------------------------- statements
+    def block(self, stmts, scope, ind):
+        self._pending.append([])
+        try:
+            text = self._block1(stmts, scope, ind)
+        finally:
+            pend = self._pending.pop()
+        pad = "  " * ind
+        for e, tmp in reversed(pend):
+            text = "%s(%s).bind fun %s =>\n%s" % (pad, e, tmp, text)
+        return text
+
+    def _block1(self, stmts, scope, ind):
+        pad = "  " * ind
+        if not stmts:
+            if self.r.end is None:
+                raise py2lean.Untranslatable("control reaches the end of the function without return/raise")
+            try:
+                return pad + self.r.end.format(**scope)
+            except KeyError as e:
+                raise py2lean.Untranslatable("end of function: no variable %s" % e)
+        st, rest = stmts[0], stmts[1:]
+        if isinstance(st, ast.Return) and st.value is None and self.r.end is not None:
+            return self._block1([], scope, ind)        # bare `return` = falling off the end
+        if isinstance(st, (ast.Import, ast.ImportFrom)):
+            return self.block(rest, scope, ind)
+        if isinstance(st, ast.If):
+            c = self.pure(st.test, scope)
+            v = _fold(c)
+            if v is not None:
+                return self.block(list(st.body if v else st.orelse) + rest, dict(scope), ind)
+        if isinstance(st, ast.Raise):
+            exc = st.exc
+            name = None
+            if isinstance(exc, ast.Call) and isinstance(exc.func, ast.Name):
+                name = exc.func.id
+            elif isinstance(exc, ast.Name):
+                name = exc.id
+            if name not in self.r.raises:
+                raise py2lean.Untranslatable("raise of %r" % name)
+            return pad + self.r.raises[name]
+        for i, (pat, recv, tmpl) in enumerate(self.r.stmt):
+            env = {}
+            if py2lean.match(pat, st, env):
+                self.used_rules.add(("s", i))
+                target = env[recv]
+                if not isinstance(target, ast.Name):
+                    raise py2lean.Untranslatable("in-place call on a non-variable: `%s`" % ast.unparse(st))
+                vals = {k: self.pure(v, scope) for k, v in env.items()}
+                for k, want in self.r.stmt_guard[i].items():
+                    if vals.get(k) != want:
+                        raise py2lean.Untranslatable("call shape changed (`%s`: %s is %s, not %s)" % (
+                            ast.unparse(st), k, vals.get(k), want))
+                val = tmpl.format(**vals)
+                new = self.fresh(target.id, scope)
+                sc = dict(scope)
+                sc[target.id] = new
+                if self.r.stmt_flag[i] == "bind":
+                    return pad + self.r.bind.format(m=val, x=new, k=self.block(rest, sc, ind + 1))
+                return "%slet %s := %s\n%s" % (pad, new, val, self.block(rest, sc, ind))
+        if (isinstance(st, ast.Assign) and len(st.targets) == 1 and isinstance(st.targets[0], ast.Tuple)
+                and all(isinstance(e, ast.Name) for e in st.targets[0].elts)):
+            for pat, names in self.r.tuples:
+                env = {}
+                if py2lean.match(pat, st.value, env) and len(names) == len(st.targets[0].elts):
+                    for v in env.values():
+                        self.pure(v, scope)      # the operands must be in the vocabulary
+                    sc = dict(scope)
+                    for e, nm in zip(st.targets[0].elts, names):
+                        sc[e.id] = nm
+                    return self.block(rest, sc, ind)
+            raise py2lean.Untranslatable("no rule for `%s`" % ast.unparse(st))
+        return py2lean.Translator.block(self, stmts, scope, ind)
+
+
+def _stub(sig, value, why):
+    return "/- TRANSLATION FAILED: %s -/\n%s :=\n  %s\n" % (why.replace("-/", "- /"), sig, value)
+
+
+def _two(tr_rules, cls, names, argmap, ind=3):
+    """bodies of the `before` and the `after` variant of a method (each with the rules of its direction)"""
+    out = {}
+    for direction in ("before", "after"):
+        tr = EntryTranslator(tr_rules(direction))
+        out[direction] = tr.function(cls.__dict__[names % direction], argmap, ind=ind)
+    return out
+
+
+def entry_text():
+    """(lean text, [reasons of the definitions that could not be translated])"""
+    import menpo.transform as mt
+    from menpo.transform.base import Transform
+    from menpo.transform.base.composable import ComposableTransform, TransformChain
+    from menpo.transform.homogeneous.base import Homogeneous
+    from menpo.transform.homogeneous import affine as affine_mod, scale as scale_mod
+    from . import extract_c03
+    fam = extract_c03.family_classes()
+    mtab = dict(extract_c03.method_table())
+    col = {m: i for i, m in enumerate(extract_c03.METHODS)}
+    fam_rows = [k for k in mtab if k.startswith(".fam")]
+
+    def suppliers(meth):
+        seen = []
+        for k in fam_rows:
+            s = mtab[k][col[meth]]
+            if s is not None and s not in seen:
+                seen.append(s)
+        return seen
+
+    def klass(name):
+        if name in fam:
+            return fam[name]
+        for mod in (affine_mod, scale_mod, mt):
+            if hasattr(mod, name):
+                return getattr(mod, name)
+        raise py2lean.Untranslatable("supplier class %s not found" % name)
+
+    failed = []
+    parts = []
+
+    def emit(sig, stub_value, make):
+        """one definition: `make()` returns the text after `:=` (or the match arms)"""
+        try:
+            parts.append("%s%s\n" % (sig, make().rstrip("\n")))
+        except py2lean.Untranslatable as e:
+            failed.append("%s: %s" % (sig.split()[1], e))
+            parts.append(_stub(sig, stub_value, str(e)))
+        except (KeyError, AttributeError) as e:
+            failed.append("%s: %r" % (sig.split()[1], e))
+            parts.append(_stub(sig, stub_value, repr(e)))
+
+    HTd = "(%s : HT d)"
+
+    # ---- 1. _set_h_matrix of every class that supplies one, specialised to copy=False, skip_checks=True ----
+    seth = suppliers("_set_h_matrix")
+
+    def seth_rules():
+        stmt = [("$s._h_matrix = $v", "s", HTd % "⟨{s}.cls, {v}⟩"),
+                ("$s._sync_target_from_state()", "s", "{s}")]      # touches the target only
+        for c in seth:
+            stmt.append(("%s._set_h_matrix($s, $v, copy=$c, skip_checks=$k)" % c, "s", "genSetH_%s {s} {v}" % c, "",
+                         {"c": "false", "k": "true"}))
+        return ERules(expr=[("$x.copy()", "{x}")], stmt=stmt, end="{self}", ret="{e}")
+
+    for c in seth:
+        emit("def genSetH_%s (self : HT d) (value : Mat (d + 1)) : HT d" % c, "⟨.Homogeneous, Mat.one (d + 1)⟩",
+             lambda c=c: " :=\n" + EntryTranslator(seth_rules()).function(
+                 klass(c).__dict__["_set_h_matrix"],
+                 {"self": "self", "value": "value", "copy": "false", "skip_checks": "true"}, ind=1))
+    parts.append("def setHBodies : List (Sup × (HT d → Mat (d + 1) → HT d)) :=\n  [%s]\n" % ", ".join(
+        "(.%s, genSetH_%s)" % (c, c) for c in seth))
+
+    # ---- 2. Homogeneous._compose_before_inplace / _compose_after_inplace ----
+    def hin_rules(direction):
+        return ERules(
+            expr=[("np.dot($x.h_matrix, $y.h_matrix)", "(Mat.mul {x}.M {y}.M)")],
+            stmt=[("$s._set_h_matrix($m, copy=False, skip_checks=True)", "s",
+                   "(callMeth mt ._set_h_matrix (.fam {s}.cls) setHBodies).map fun f => f {s} {m}", "bind")],
+            end="some {self}", ret="some {e}", raise_="none")
+
+    def two_arms(bodies, a1="self", a2="transform"):
+        return "\n  | .before, %s, %s =>\n%s\n  | .after, %s, %s =>\n%s\n" % (a1, a2, bodies["before"], a1, a2, bodies["after"])
+
+    emit("def genHomogInplace (mt : MethodTable) : Dir → HT d → HT d → Option (HT d)", "fun _ _ _ => none",
+         lambda: two_arms(_two(hin_rules, Homogeneous, "_compose_%s_inplace", {"self": "self", "transform": "transform"})))
+
+    # ---- 3. TransformChain._compose_*_inplace: `self` stands for the member list ----
+    def cin_rules(direction):
+        return ERules(stmt=[("$s.transforms.append($t)", "s", "({s} ++ [{t}])"),
+                            ("$s.transforms.insert(0, $t)", "s", "({t} :: {s})")], end="{self}", ret="{e}")
+
+    emit("def genChainInplace : Dir → List Nat → Nat → List Nat", "fun _ _ _ => []",
+         lambda: two_arms(_two(cin_rules, TransformChain, "_compose_%s_inplace", {"self": "self", "transform": "transform"})))
+    parts.append("def inplaceBodies (mt : MethodTable) (dir : Dir) : List (Sup × (Obj → Obj → Except Err Cell)) :=\n"
+                 "  [(.Homogeneous, onFam (genHomogInplace mt dir)), (.TransformChain, onChain (genChainInplace dir))]\n")
+
+    # ---- 3b. TransformChain._apply: `g m` stands for the `_apply` of the member with reference m ----
+    capply_rules = ERules(expr=[("$t._apply($a)", "g {t} {a}"), ("$s.transforms", "{s}")], ret="{e}")
+    emit("def genChainApply (g : Nat → Pt → Option Pt) (self : List Nat) (x : Pt) : Option Pt", "none",
+         lambda: " :=\n" + EntryTranslator(capply_rules).function(TransformChain.__dict__["_apply"],
+                                                                  {"self": "self", "x": "x"}, ind=1))
+
+    EXC = {"ValueError": ".error .rejected", "NotImplementedError": ".error .notImplemented"}
+
+    def inplace_stmt(direction):
+        return ("$s._compose_%s_inplace($t)" % direction, "s",
+                "(callObj mt ._compose_%s_inplace (inplaceBodies mt .%s) {s} {t}).map {s}.withCell" % (direction, direction),
+                "bind")
+
+    # ---- 4. ComposableTransform._compose_before / _compose_after (copy, then the in-place method) ----
+    def naive_rules(direction):
+        return ERules(expr=[("$x.copy()", "{x}.copied")], stmt=[inplace_stmt(direction)],
+                      ret="{e}.fresh.map (·.cell)", raises=EXC)
+
+    emit("def genNaiveCompose (mt : MethodTable) : Dir → Obj → Obj → Except Err Cell", "fun _ _ _ => .error .fuel",
+         lambda: two_arms(_two(naive_rules, ComposableTransform, "_compose_%s", {"self": "self", "transform": "transform"})))
+
+    # ---- 5. Transform.compose_before / compose_after ----
+    def tc_rules(direction):
+        return ERules(expr=[("TransformChain($l)", "mkChain {l}", "bind")], item="{x}.ref", raises=EXC)
+
+    emit("def genTransformCompose : Dir → Obj → Obj → Except Err Cell", "fun _ _ _ => .error .fuel",
+         lambda: two_arms(_two(tc_rules, Transform, "compose_%s", {"self": "self", "transform": "transform"})))
+    parts.append("def composeBodies (tbl : ClassTable) (mt : MethodTable) (dir : Dir) : List (Sup × (Obj → Obj → Except Err Cell)) :=\n"
+                 "  [(.Homogeneous, onFam (genLadder tbl ladderFuel dir)), (.ComposableTransform, genNaiveCompose mt dir)]\n")
+
+    # ---- 6. ComposableTransform.compose_before / compose_after ----
+    def entry_rules(direction):
+        return ERules(
+            expr=[("isinstance($t, $s.composes_with)", "gateCompose tbl {s}.cell {t}.cell"),
+                  ("$s._compose_%s($t)" % direction,
+                   "callObj mt ._compose_%s (composeBodies tbl mt .%s) {s} {t}" % (direction, direction), "bind"),
+                  ("Transform.compose_%s($s, $t)" % direction, "genTransformCompose .%s {s} {t}" % direction, "bind")],
+            ret=".ok {e}", raises=EXC)
+
+    emit("def genEntryCompose (tbl : ClassTable) (mt : MethodTable) : Dir → Obj → Obj → Except Err Cell",
+         "fun _ _ _ => .error .fuel",
+         lambda: two_arms(_two(entry_rules, ComposableTransform, "compose_%s", {"self": "self", "transform": "transform"})))
+
+    # ---- 7. ComposableTransform.compose_before_inplace / compose_after_inplace ----
+    def entryin_rules(direction):
+        return ERules(expr=[("isinstance($t, $s.composes_inplace_with)", "gateInplace tbl {s}.cell {t}.cell")],
+                      stmt=[inplace_stmt(direction)], end=".ok {self}.cell", ret=".ok {e}", raises=EXC)
+
+    emit("def genEntryInplace (tbl : ClassTable) (mt : MethodTable) : Dir → Obj → Obj → Except Err Cell",
+         "fun _ _ _ => .error .fuel",
+         lambda: two_arms(_two(entryin_rules, ComposableTransform, "compose_%s_inplace", {"self": "self", "transform": "transform"})))
+
+    # ---- 8. as_non_alignment of every class that supplies one ----
+    ana = suppliers("as_non_alignment")
+    ana_rules = ERules(expr=[
+        ("$x.h_matrix", "{x}.M"), ("$x.rotation_matrix", "(lin {x}.M)"),
+        ("$x.translation_component", "(trans {x}.M)"), ("$x.scale", "({x}.M 0 0)"), ("$x.n_dims", "d"),
+        ("Affine($m, skip_checks=True)", HTd % "⟨.Affine, {m}⟩"),
+        ("Similarity($m, skip_checks=True)", HTd % "⟨.Similarity, {m}⟩"),
+        ("Rotation($r, skip_checks=True)", HTd % "⟨.Rotation, mkAffine {r} (zeroVec d)⟩"),
+        ("Translation($t)", HTd % "⟨.Translation, mkAffine (Mat.one d) {t}⟩"),
+        ("UniformScale($s, $n)", HTd % "⟨.UniformScale, mkAffine (scalarMat {n} {s}) (zeroVec {n})⟩")], ret="{e}")
+    for c in ana:
+        emit("def genANA_%s (self : HT d) : HT d" % c, "⟨.Homogeneous, Mat.one (d + 1)⟩",
+             lambda c=c: " :=\n" + EntryTranslator(ana_rules).function(klass(c).__dict__["as_non_alignment"],
+                                                                     {"self": "self"}, ind=1))
+    parts.append("def anaBodies : List (Sup × (HT d → HT d)) :=\n  [%s]\n" % ", ".join(
+        "(.%s, genANA_%s)" % (c, c) for c in ana))
+
+    # ---- 9. Homogeneous.from_vector, compose_after_from_vector_inplace ----
+    fv_rules = ERules(expr=[("$x.copy()", "{x}.copied")],
+                      stmt=[("$s._from_vector_inplace($v)", "s", "famFromVec {s} {v}", "bind")], ret="{e}.fresh", raises=EXC)
+    emit("def genFromVector (self : Obj) (vector : List Rat) : Except Err Obj", ".error .fuel",
+         lambda: " :=\n" + EntryTranslator(fv_rules).function(Homogeneous.__dict__["from_vector"],
+                                                              {"self": "self", "vector": "vector"}, ind=1))
+    fve_rules = ERules(
+        expr=[("$s.from_vector($v)",
+               "match callMeth mt .from_vector {s}.cell.kls [(Sup.Homogeneous, genFromVector)] with "
+               "| some f => f {s} {v} | none => .error .noMethod", "bind")],
+        stmt=[("$s.compose_after_inplace($t)", "s",
+               "(callObj mt .compose_after_inplace [(.ComposableTransform, genEntryInplace tbl mt .after)] {s} {t})"
+               ".map {s}.withCell", "bind")],
+        end=".ok {self}.cell", ret=".ok {e}", raises=EXC)
+    emit("def genFromVectorEntry (tbl : ClassTable) (mt : MethodTable) (self : Obj) (vector : List Rat) : Except Err Cell",
+         ".error .fuel",
+         lambda: " :=\n" + EntryTranslator(fve_rules).function(
+             Homogeneous.__dict__["compose_after_from_vector_inplace"], {"self": "self", "vector": "vector"}, ind=1))
+
+    # ---- 10. the Scale factory (called as `Scale(S)` by Affine.decompose: one array argument, n_dims=None) ----
+    scale_rules = ERules(expr=[
+        ("isinstance($x, Number)", "false"),                 # the argument is an array
+        ("np.asarray($x)", "{x}"), ("np.all($x)", "vecAllNonzero {x}"),
+        ("np.allclose($x, $x[0])", "uniform"),               # numpy's decision: a Boolean input of the model
+        ("$x.shape[0]", "d"), ("$x[0]", "{x}.head"),
+        ("UniformScale($s, $n)", HTd % "⟨.UniformScale, mkAffine (scalarMat {n} {s}) (zeroVec {n})⟩"),
+        ("NonUniformScale($s)", HTd % "⟨.NonUniformScale, mkAffine (diagMat {s}) (zeroVec d)⟩")],
+        ret=".ok {e}", raises=EXC)
+    emit("def genScale (scalefactor : Vec d) (uniform : Bool) : Except Err (HT d)", ".error .fuel",
+         lambda: " :=\n" + EntryTranslator(scale_rules).function(scale_mod.Scale,
+                                                                 {"scale_factor": "scalefactor", "n_dims": "none"}, ind=1))
+
+    # ---- 11. Affine.decompose (numpy's SVD factors are parameters), DiscreteAffine.decompose ----
+    dec_rules = ERules(expr=[
+        ("$x.translation_component", "(trans {x}.M)"),
+        ("Rotation($r)", HTd % "⟨.Rotation, mkAffine {r} (zeroVec d)⟩"),
+        ("Translation($t)", HTd % "⟨.Translation, mkAffine (Mat.one d) {t}⟩"),
+        ("Scale($s)", "genScale {s} uniform", "bind")],
+        tuples=[("np.linalg.svd($x.linear_component)", ["U", "S", "V"])],
+        item="Leaf.fam d {x}", ret=".ok {e}", raises=EXC)
+    emit("def genDecompose (self : HT d) (U V : Mat d) (S : Vec d) (uniform : Bool) : Except Err (List Leaf)",
+         ".error .fuel",
+         lambda: " :=\n" + EntryTranslator(dec_rules).function(klass("Affine").__dict__["decompose"], {"self": "self"}, ind=1))
+    disc_rules = ERules(expr=[("$x.copy()", "{x}")], item="Leaf.fam d {x}", ret=".ok {e}", raises=EXC)
+    emit("def genDecomposeDiscrete (self : HT d) : Except Err (List Leaf)", ".error .fuel",
+         lambda: " :=\n" + EntryTranslator(disc_rules).function(klass("DiscreteAffine").__dict__["decompose"],
+                                                                {"self": "self"}, ind=1))
+
+    text = ("/- TRANSLATED by harness/trans_c03.py (harness/py2lean.py) from the SOURCE TEXT of the entry points of the\n"
+            "   composition machinery of the current working tree (Transform / ComposableTransform / TransformChain /\n"
+            "   Homogeneous compose_*, _compose_*, _set_h_matrix, as_non_alignment, from_vector, Affine.decompose, Scale) on\n"
+            "   every run of `./check C03`; do not edit.  The lists `…Bodies` name the translated body of each class the\n"
+            "   live method table names as a supplier.  GenProps/C03Entry.lean proves the entry points equal to the model. -/\n"
+            "import MenpoModel.Core.C03Entry\nimport MenpoModel.Generated.C03Ladder\n\n"
+            "namespace MenpoModel.Generated.C03\nopen MenpoModel.C03\n\nvariable {d : Nat}\n\n"
+            + "\n".join(parts) + "\nend MenpoModel.Generated.C03\n")
+    return text, failed
+
+
+def entry_generated_files():
+    text, failed = entry_text()
+    return {ENTRY_REL: text}, failed
